@@ -389,8 +389,17 @@ def build_circuit(case):
             if op["cc"] is not None and (not case.get("assign") or op["ccv"] is None):
                 kw["classical_controls"] = list(op["cc"])
                 if op["ccv"] is not None:          # None: left at the default of Gate.__init__
-                    kw["classical_control_value"] = op["ccv"]
-            qc.add_gate(GATE_NAMES[code], targets=list(q[nc:]), controls=(list(q[:nc]) if nc else None), **kw)
+                    kw["classical_control_value"] = ccv_as(case.get("ccvtype"), op["ccv"])
+            if case.get("path") == "class":
+                # through the gate class instead of the gate name
+                from qutip_qip import operations as _ops
+                cls = getattr(_ops, GATE_NAMES[code])
+                qc.add_gate(cls(targets=list(q[nc:]), **({"controls": list(q[:nc])} if nc else {}), **kw))
+            elif case.get("path") == "gate":
+                from qutip_qip.operations import Gate as _Gate
+                qc.add_gate(_Gate(GATE_NAMES[code], targets=list(q[nc:]), controls=(list(q[:nc]) if nc else None), **kw))
+            else:
+                qc.add_gate(GATE_NAMES[code], targets=list(q[nc:]), controls=(list(q[:nc]) if nc else None), **kw)
             if op["cc"] is not None and case.get("assign") and op["ccv"] is not None:
                 # the condition is ASSIGNED on the gate object after add_gate (as circuit/_decompose.py and user code
                 # do): the simulator reads the gate's attributes when it executes the gate
@@ -399,6 +408,17 @@ def build_circuit(case):
         else:
             qc.add_measurement("M", targets=[op["m"]], classical_store=op["store"])
     return qc
+
+
+def ccv_as(kind, v):
+    """the classical_control_value `v` as a number of another type (the range contract does not depend on the type)"""
+    if kind in (None, "int"):
+        return int(v)
+    if kind == "bool":
+        return bool(v)
+    if kind == "arr0":
+        return np.array(v)
+    return {"i64": np.int64, "i32": np.int32, "u8": np.uint8}[kind](v)
 
 
 def versions_of(case):
